@@ -136,6 +136,7 @@ package nsqd
 
 //@ func (t *Topic) getOrCreateChannel(channelName string) (*Channel, bool)
 //@   props C16
+//@   nochan
 //@   requires t != nil && t.nsqd != nil && t.channelMap != nil
 //@   requires[values] forall k string :: {t.channelMap[k]} has(t.channelMap, k) ==> lChanUsable(t.channelMap[k])
 //@   ensures[present] result0 != nil && has(t.channelMap, channelName) && t.channelMap[channelName] == result0
@@ -148,10 +149,14 @@ package nsqd
 
 // GetChannel: afterwards the channel exists in the topic (at release of the topic lock).
 //@ func (t *Topic) GetChannel(channelName string) *Channel
-//@   props C16
+//@   props C16 C01
 //@   requires t != nil && t.nsqd != nil
 //@   ensures[exists] result != nil && atunlock(has(t.channelMap, channelName)) && atunlock(t.channelMap[channelName]) == result
 //@   ensures[usable] lChanUsable(result)
+//   a NEW channel is announced to the topic's message pump with a blocking send (never dropped while the pump is busy: otherwise
+//   later publishes would skip the channel), unless the topic is exiting; an existing channel is announced to nobody
+//@   ensures[new-channel-announced-to-pump] !atlock(has(t.channelMap, channelName)) ==> sent(t.channelUpdateChan) == old(sent(t.channelUpdateChan)) + 1 || recvd(t.exitChan) == old(recvd(t.exitChan)) + 1
+//@   ensures[existing-channel-not-announced] atlock(has(t.channelMap, channelName)) ==> sent(t.channelUpdateChan) == old(sent(t.channelUpdateChan))
 //@   modifies t.channelMap, mapstore(map[string]*Channel), dqCalls, kNotifies, kInitPQs, mapstore(map[MessageID]*Message), mapstore(map[MessageID]*pqueue.Item), Message.index, elems(*Message), elems(*pqueue.Item)
 //@   onreturn channelName == watchName && t == watchTopic ==> watchCreated := true
 //   the most recent GetChannel call: topic, name, result, and the number of Channel.doPause calls completed when it
